@@ -169,6 +169,7 @@ open Rdest Rdest.Wire Rdest.Swarm
 def propPred (prop : String) (mode : String) (tr : Trace) : Option String :=
   let expected : Option Bytes := if mode.startsWith "out:" then parseHex (mode.drop 4).toString else none
   match prop with
+  | "C09" => if P09 Rdest.Gen.PIECE_BLOCK_SIZE tr then none else some "P09-upload-discipline"
   | "C08" => if P08 ourInfoHash ourId expected tr then none else some "P08-handshake-gate"
   | "C20" => if P20 Rdest.Gen.KEEP_ALIVE_LIMIT 0 tr then none else some "P20-keepalive-discipline"
   | "C06" => if P06 tr then none else some "T5-receive-error-does-not-end-the-task"
@@ -177,9 +178,12 @@ def propPred (prop : String) (mode : String) (tr : Trace) : Option String :=
 def handVerdict (prop : String) (args res : List String) : Verdict :=
   match args, res with
   | ["hand", mode, nps, script], [outs] =>
-    if outs = "P" then vProp "task-panicked" "hand" else
+    if outs = "P" ∨ (outs.splitOn "PANIC").length > 1 then vProp "task-panicked" "hand" else
     match nps.toNat?, initState mode (nps.toNat?.getD 0), (script.splitOn ";").mapM parseEv with
     | some _, some st0, some evs =>
+      -- a connection we opened starts with its handshake: such scripts begin with the `s` event
+      if mode.startsWith "out:" ∧ !(match evs.head? with | some (.start _) => true | _ => false) then
+        { text := "unrealizable-script (outgoing connection without start event)", tag := "unrealizable" } else
       match toTIn evs with
       | none => vBad "script-raw-not-fatal"
       | some ins =>
